@@ -12,7 +12,9 @@ Record identcase := {
   i_disable : bool;                 (* disable_username_normalization *)
   i_realm : option bs;
   i_accounts : list (bs * bs);      (* the password backend: the (account, password) pairs it accepts *)
-  i_kind : N;                       (* 1 login by form, 2 login by Basic header, 3 Basic on the request, 4 client certificate *)
+  i_automation : list bs;           (* automation_users *)
+  i_kind : N;                       (* 1 login by form, 2 login by Basic header, 3 Basic on the request, 4 client certificate,
+                                       5 IP-restricted certificate from inside its netblocks *)
   i_typed : bs; i_pw : bs;          (* the name as typed (certificate: its common name) and the password sent *)
   i_target : bs; i_type : N; i_key : option (N * bool);
   i_asked : list bs;                (* the accounts the password backend was asked about while the case ran (each once) *)
@@ -22,6 +24,7 @@ Record identcase := {
 Definition table_backend (t : list (bs * bs)) (account pw : bs) : bool :=
   existsb (fun ap => bs_eqb (fst ap) account && bs_eqb (snd ap) pw) t.
 
+Definition list_automation (l : list bs) (name : bs) : bool := existsb (bs_eqb name) l.
 Definition i_okta_filter (c : identcase) : option (bs -> bs) := if i_okta c then Some okta_at_filter else None.
 Definition i_credkind (c : identcase) : credkind := kind_of_index (i_kind c).
 
@@ -40,10 +43,10 @@ Definition ident_q0 (c : identcase) : certreq :=
      q_key := i_key c; q_add_groups := false |}.
 
 Definition ident_path (c : identcase) : pwres :=
-  cred_path (i_okta_filter c) (i_disable c) (table_backend (i_accounts c)) (i_credkind c) (i_typed c) (i_pw c).
+  cred_path (i_okta_filter c) (i_disable c) (table_backend (i_accounts c)) (list_automation (i_automation c)) (i_credkind c) (i_typed c) (i_pw c).
 
 Definition ident_outcome (c : identcase) : outcome :=
-  ident_certgen (i_okta_filter c) (i_disable c) (table_backend (i_accounts c)) (fun _ _ => None)
+  ident_certgen (i_okta_filter c) (i_disable c) (table_backend (i_accounts c)) (list_automation (i_automation c)) (fun _ _ => None)
                 (ident_server0 c) (ident_q0 c) 0%Z (i_credkind c) (i_typed c) (i_pw c).
 
 Definition is_login_kind (k : credkind) : bool := match k with KLoginForm | KLoginBasic => true | _ => false end.
@@ -56,7 +59,8 @@ Definition ident_bad (c : identcase) : bool :=
 
 (* ---- the property's predicate on the OBSERVED answer (classes as in CertgenObs.c02_violation, plus
    9 = a certificate although the password backend does not accept the password for the account the
-   typed name stands for, 10 = the login set a session for another name than that account).  Written
+   typed name stands for, 10 = the login set a session for another name than that account, 11 = a certificate
+   for an IP-restricted certificate whose name is not a configured automation user).  Written
    against the specification side - account_of and the backend table -, not against the credential
    paths. *)
 Definition ident_violation (c : identcase) : N :=
@@ -68,7 +72,8 @@ Definition ident_violation (c : identcase) : N :=
   else if negb (o_issued o) then (if o_error o then 0 else 7)
   else if negb (bs_eqb (i_target c) account) then 1
   else if negb (list_bs_eqb (o_names o) [account]) then 2
-  else if match k with KCert => false | _ => negb (table_backend (i_accounts c) account (i_pw c)) end then 9
+  else if password_kind k && negb (table_backend (i_accounts c) account (i_pw c)) then 9
+  else if match k with KIpCert => negb (list_automation (i_automation c) account) | _ => false end then 11
   else if negb (list_bs_eqb (o_other_names o) []) then 8
   else if negb (match i_key c with Some (key, _) => o_key o =? key | None => false end) then 3
   else if negb (o_user_type o) || o_is_ca o || (negb (o_ssh o) && negb (o_eku_client o)) then 4
